@@ -359,7 +359,7 @@ func (p *Program) collectInlineSites(pk *packages.Package, file *ast.File, calle
 		}
 		return nil
 	}
-	handleStmt := func(st ast.Stmt, wrapAlways bool) {
+	handleStmt := func(st ast.Stmt, wrapAlways bool, rest []ast.Stmt) {
 		var call *ast.CallExpr
 		replStart, replEnd := st.Pos(), st.End()
 		prefix, suffix := "", ""
@@ -513,7 +513,7 @@ func (p *Program) collectInlineSites(pk *packages.Package, file *ast.File, calle
 			}
 		}
 		for i, rv := range rvars {
-			fmt.Fprintf(&sb, "var %s %s\n", rv, rtypes[i])
+			fmt.Fprintf(&sb, "var %s %s\n_ = %s\n", rv, rtypes[i], rv)
 		}
 		// argument temporaries (typed, evaluated in the caller's scope, in order)
 		type bind struct{ name, typ, tmp string }
@@ -558,18 +558,73 @@ func (p *Program) collectInlineSites(pk *packages.Package, file *ast.File, calle
 			return
 		}
 		label := fmt.Sprintf("pkoInl%dEnd", n)
+		// tail duplication: when the statements after the call end the enclosing block with a jump,
+		// every return of the helper continues with its own copy of them, so that results do not
+		// merge in a variable (the shape the code had before the helper was extracted)
+		dupTail, dupEnd, conflicts := p.tailDuplicable(pk, fd, st, rest, prefix != "" || wrapAlways)
+		// alpha-rename the helper's own declarations that would capture names of the continuation
+		type renOcc struct {
+			off, n int
+		}
+		var renames []renOcc
+		rename := func(name string) string { return name }
+		if dupTail && len(conflicts) > 0 {
+			sfx := fmt.Sprintf("_pkoInl%d", n)
+			rename = func(name string) string {
+				if conflicts[name] {
+					return name + sfx
+				}
+				return name
+			}
+			ast.Inspect(fd, func(nd ast.Node) bool {
+				id, isID := nd.(*ast.Ident)
+				if !isID || !conflicts[id.Name] {
+					return true
+				}
+				obj := pk.TypesInfo.Defs[id]
+				if obj == nil {
+					obj = pk.TypesInfo.Uses[id]
+				}
+				if obj == nil || obj.Pos() < fd.Pos() || obj.Pos() >= fd.End() {
+					return true
+				}
+				if v, isVar := obj.(*types.Var); isVar && v.IsField() {
+					return true
+				}
+				renames = append(renames, renOcc{coff(id.Pos()), len(id.Name)})
+				return true
+			})
+			sort.Slice(renames, func(i, j int) bool { return renames[i].off < renames[j].off })
+			plain := ctext
+			ctext = func(a, b token.Pos) string {
+				lo, hi := coff(a), coff(b)
+				var out strings.Builder
+				cur := lo
+				for _, r := range renames {
+					if r.off < lo || r.off+r.n > hi {
+						continue
+					}
+					out.WriteString(string(csrc[cur:r.off]))
+					out.WriteString(string(csrc[r.off:r.off+r.n]) + sfx)
+					cur = r.off + r.n
+				}
+				out.WriteString(string(csrc[cur:hi]))
+				_ = plain
+				return out.String()
+			}
+		}
 		sb.WriteString("{\n")
 		for _, b := range binds {
 			if b.name == "_" {
 				continue
 			}
-			fmt.Fprintf(&sb, "%s := %s\n_ = %s\n", b.name, b.tmp, b.name)
+			fmt.Fprintf(&sb, "%s := %s\n_ = %s\n", rename(b.name), b.tmp, rename(b.name))
 		}
 		for i, nm := range rnames {
 			if nm == "_" {
 				continue
 			}
-			fmt.Fprintf(&sb, "%s := %s\n_ = %s\n", nm, rvars[i], nm)
+			fmt.Fprintf(&sb, "%s := %s\n_ = %s\n", rename(nm), rvars[i], rename(nm))
 		}
 		// body with returns rewritten
 		var rets []*ast.ReturnStmt
@@ -595,21 +650,54 @@ func (p *Program) collectInlineSites(pk *packages.Package, file *ast.File, calle
 		for _, r := range rets {
 			sb.WriteString(ctext(cur, r.Pos()))
 			sb.WriteString("{ ")
+			vals := rvars
 			switch {
+			case dupTail && len(r.Results) > 0 && len(r.Results) == len(rvars):
+				// the continuation copy uses the returned expressions directly
+				vals = nil
+				for _, e := range r.Results {
+					vals = append(vals, "("+lineDir(e.Pos())+ctext(e.Pos(), e.End())+")")
+				}
+			case dupTail && len(r.Results) == 1 && len(rvars) > 1:
+				vals = []string{lineDir(r.Results[0].Pos()) + ctext(r.Results[0].Pos(), r.Results[0].End())}
+			case dupTail && len(r.Results) == 0 && len(rnames) > 0:
+				vals = mapStrings(rnames, rename)
 			case len(r.Results) > 0 && len(rvars) > 0:
 				fmt.Fprintf(&sb, "%s = %s%s; ", strings.Join(rvars, ", "), lineDir(r.Results[0].Pos()), ctext(r.Results[0].Pos(), r.Results[len(r.Results)-1].End()))
 			case len(r.Results) == 0 && len(rnames) > 0:
-				fmt.Fprintf(&sb, "%s = %s; ", strings.Join(rvars, ", "), strings.Join(rnames, ", "))
+				fmt.Fprintf(&sb, "%s = %s; ", strings.Join(rvars, ", "), strings.Join(mapStrings(rnames, rename), ", "))
 			}
-			fmt.Fprintf(&sb, "goto %s }", label)
-			usedLabel = true
+			if dupTail {
+				sb.WriteString(lineDir(st.Pos()))
+				if sprime := rebuild(vals); sprime != "" {
+					sb.WriteString(sprime)
+				} else if len(rvars) > 0 && len(vals) > 0 {
+					// results discarded by the caller: still evaluate the returned expressions
+					blanks := make([]string, len(rvars))
+					for i := range blanks {
+						blanks[i] = "_"
+					}
+					sb.WriteString(strings.Join(blanks, ", ") + " = " + strings.Join(vals, ", "))
+				}
+				if replEnd < st.End() {
+					sb.WriteString(text(replEnd, st.End()))
+				}
+				if len(rest) > 0 {
+					sb.WriteString("\n" + lineDir(rest[0].Pos()))
+					sb.WriteString(text(rest[0].Pos(), dupEnd))
+				}
+				sb.WriteString("\n}")
+			} else {
+				fmt.Fprintf(&sb, "goto %s }", label)
+				usedLabel = true
+			}
 			cur = r.End()
 			sb.WriteString(lineDir(cur))
 		}
 		sb.WriteString(ctext(cur, fd.Body.Rbrace))
 		// falling off the end of a function with named results
 		if len(rnames) > 0 {
-			fmt.Fprintf(&sb, "\n%s = %s\n", strings.Join(rvars, ", "), strings.Join(rnames, ", "))
+			fmt.Fprintf(&sb, "\n%s = %s\n", strings.Join(rvars, ", "), strings.Join(mapStrings(rnames, rename), ", "))
 		}
 		sb.WriteString("\n}\n")
 		if usedLabel {
@@ -623,14 +711,25 @@ func (p *Program) collectInlineSites(pk *packages.Package, file *ast.File, calle
 		}
 		sb.WriteString(tail)
 		sb.WriteString(suffix)
+		if dupTail {
+			// the original continuation stays after the block (reached only by falling off the helper's end)
+			if replEnd < st.End() {
+				sb.WriteString(text(replEnd, st.End()))
+			}
+			if len(rest) > 0 {
+				sb.WriteString("\n" + lineDir(rest[0].Pos()))
+				sb.WriteString(text(rest[0].Pos(), dupEnd))
+			}
+			replEnd = dupEnd
+		}
 		after := p.Fset.PositionFor(replEnd, false)
 		fmt.Fprintf(&sb, "/*line %s:%d:%d*/", after.Filename, after.Line, after.Column)
 		emit(fileEdit{off(replStart), off(replEnd), sb.String()},
 			fmt.Sprintf("%s inlined into %s at %s", fd.Name.Name, caller.Name.Name, p.Pos(st.Pos())))
 	}
 	handleList = func(list []ast.Stmt) {
-		for _, st := range list {
-			handleStmt(st, false)
+		for i, st := range list {
+			handleStmt(st, false, list[i+1:])
 			// else-if chains: the nested if is not an element of a statement list
 			if ifs, ok := st.(*ast.IfStmt); ok {
 				for e := ifs.Else; e != nil; {
@@ -638,7 +737,7 @@ func (p *Program) collectInlineSites(pk *packages.Package, file *ast.File, calle
 					if !isIf {
 						break
 					}
-					handleStmt(nested, true)
+					handleStmt(nested, true, nil)
 					e = nested.Else
 				}
 			}
@@ -773,7 +872,7 @@ func LoadNormalized(repoDir, tier string, overlay map[string][]byte) (*Program, 
 			}
 		}
 	}
-	for pass := 0; pass < 3; pass++ {
+	for pass := 0; pass < 5; pass++ {
 		ov, ns := prog.newHelperOverlay(cur)
 		if len(ov) == 0 {
 			break
@@ -850,5 +949,130 @@ func (p *Program) remainingNewHelperCalls() []string {
 		}
 	}
 	sort.Strings(out)
+	return out
+}
+
+// tailDuplicable decides whether the statements following st in its list (rest) may be copied to
+// every return site of the helper fd. Returns the end of the copied range.
+func (p *Program) tailDuplicable(pk *packages.Package, fd *ast.FuncDecl, st ast.Stmt, rest []ast.Stmt, wrapped bool) (bool, token.Pos, map[string]bool) {
+	if wrapped {
+		return false, token.NoPos, nil
+	}
+	// the helper must have several returns (otherwise nothing merges), none inside a closure
+	nret, retNested := 0, false
+	var stack []ast.Node
+	ast.Inspect(fd.Body, func(n ast.Node) bool {
+		if n == nil {
+			stack = stack[:len(stack)-1]
+			return false
+		}
+		if _, isLit := n.(*ast.FuncLit); isLit {
+			return false
+		}
+		if _, isRet := n.(*ast.ReturnStmt); isRet {
+			nret++
+			for _, a := range stack {
+				switch a.(type) {
+				case *ast.ForStmt, *ast.RangeStmt, *ast.SwitchStmt, *ast.TypeSwitchStmt, *ast.SelectStmt:
+					retNested = true
+				}
+			}
+		}
+		stack = append(stack, n)
+		return true
+	})
+	if nret < 2 {
+		return false, token.NoPos, nil
+	}
+	// the continuation must end the block with a jump
+	last := st
+	if len(rest) > 0 {
+		last = rest[len(rest)-1]
+	}
+	switch x := last.(type) {
+	case *ast.ReturnStmt:
+	case *ast.BranchStmt:
+		if x.Label != nil || (x.Tok != token.BREAK && x.Tok != token.CONTINUE) {
+			return false, token.NoPos, nil
+		}
+	case *ast.ExprStmt:
+		c, ok := x.X.(*ast.CallExpr)
+		if !ok {
+			return false, token.NoPos, nil
+		}
+		if id, ok := c.Fun.(*ast.Ident); !ok || id.Name != "panic" {
+			return false, token.NoPos, nil
+		}
+	default:
+		return false, token.NoPos, nil
+	}
+	if last == st {
+		if _, isRet := st.(*ast.ReturnStmt); !isRet {
+			return false, token.NoPos, nil
+		}
+	}
+	end := last.End()
+	from := st.Pos()
+	if p.Fset.PositionFor(end, false).Offset-p.Fset.PositionFor(from, false).Offset > 4000 || nret > 8 {
+		return false, token.NoPos, nil
+	}
+	// no labels/gotos in the copied statements; unlabelled break/continue only if no helper return
+	// sits inside a loop/switch/select of the helper (it would bind to that statement)
+	ok := true
+	check := func(n ast.Node) bool {
+		switch x := n.(type) {
+		case *ast.LabeledStmt:
+			ok = false
+		case *ast.BranchStmt:
+			if x.Label != nil || x.Tok == token.GOTO || retNested {
+				ok = false
+			}
+		}
+		return ok
+	}
+	ast.Inspect(st, check)
+	for _, r := range rest {
+		ast.Inspect(r, check)
+	}
+	if !ok {
+		return false, token.NoPos, nil
+	}
+	// capture: a name declared in the helper that the copied statements use for something declared
+	// outside the copied range must be renamed inside the helper body (conflicts)
+	conflicts := map[string]bool{}
+	declared := map[string]bool{}
+	ast.Inspect(fd, func(n ast.Node) bool {
+		if id, isID := n.(*ast.Ident); isID {
+			if obj := pk.TypesInfo.Defs[id]; obj != nil && id != fd.Name {
+				declared[id.Name] = true
+			}
+		}
+		return true
+	})
+	uses := func(n ast.Node) bool {
+		if id, isID := n.(*ast.Ident); isID && declared[id.Name] {
+			if obj := pk.TypesInfo.Uses[id]; obj != nil {
+				if _, isField := obj.(*types.Var); isField && obj.(*types.Var).IsField() {
+					return true
+				}
+				if obj.Pos() < from || obj.Pos() >= end {
+					conflicts[id.Name] = true
+				}
+			}
+		}
+		return ok
+	}
+	ast.Inspect(st, uses)
+	for _, r := range rest {
+		ast.Inspect(r, uses)
+	}
+	return ok, end, conflicts
+}
+
+func mapStrings(xs []string, f func(string) string) []string {
+	out := make([]string, len(xs))
+	for i, x := range xs {
+		out[i] = f(x)
+	}
 	return out
 }
